@@ -144,6 +144,42 @@ def check_limits():
     return None
 
 
+def check_objects():
+    """send(obj) / recv() over a real pipe: one framed message per object, objects come back equal and in order"""
+    import pickle
+    r, w = os.pipe()
+    cw, cr = connection.Connection(w, readable=False), connection.Connection(r, writable=False)
+    try:
+        objs = [0, 'text', (1, [2, 3]), {'k': b'v'}, None, b'x' * 70000 if False else b'x' * 1000]
+        sent = []
+        real = connection.Connection._send_bytes
+        connection.Connection._send_bytes = lambda self, buf: (sent.append(bytes(buf)), real(self, buf))[1]
+        try:
+            for o in objs:
+                cw.send(o)
+        finally:
+            connection.Connection._send_bytes = real
+        if len(sent) != len(objs) or any(pickle.loads(b) != o for b, o in zip(sent, objs)):
+            return 'send() of %d objects made %d framed messages / wrong payloads' % (len(objs), len(sent))
+        got = [cr.recv() for _ in objs]
+        if got != objs:
+            return 'objects received %r, sent %r' % (got, objs)
+        try:
+            cr.send(1)
+            return 'send() on a read-only connection did not raise'
+        except OSError:
+            pass
+        try:
+            cw.recv()
+            return 'recv() on a write-only connection did not raise'
+        except OSError:
+            pass
+    finally:
+        cw.close()
+        cr.close()
+    return None
+
+
 def search(fn):
     steps = [1, 2, 3, ('err', errno.EINTR)]
     for ln in range(0, 6):
@@ -177,6 +213,12 @@ def main():
     data = json.load(open(sys.argv[1]))
     fn = data['function'].rsplit('.', 1)[1]
     print('replay of %s / %s' % (data['function'], data['obligation']))
+    if fn in ('send', 'recv'):
+        bad = check_objects()
+        if bad:
+            print('  violation on real code: %s' % bad)
+        print('REPRODUCED on real code' if bad else 'not reproduced')
+        sys.exit(1 if bad else 0)
     if fn == '_recv_bytes':
         bad = check_limits()
         if bad:
